@@ -1,7 +1,9 @@
 // Harness for C08 (observe): a real udp or tcp client.Conn over an in-memory transport inside a synctest
 // bubble. Lines: cfg <udp|tcp>; reg <tok>; arrive <tok> <code> <seq|-> <atNs> <tag>; regabort <tok> <id>;
-// cancel <tok> <id>; valid <old> <new> <last|-> <now>. One output line per input line listing what was
-// observed at quiescence after the operation.
+// cancel <tok> <id>; valid <old> <new> <last|-> <now>; reuse <tok> <id> <newtok> [short] (second use of a request message: once the
+// registration call of <id> has returned, the application writes its next request - a one-way GET under another token of the
+// same length, `short`: of a shorter length - into the very message object it registered with, no Reset, and sends it).
+// One output line per input line listing what was observed at quiescence after the operation.
 package c08
 
 import (
@@ -35,6 +37,7 @@ type conn interface {
 	DoObserve(req *pool.Message, observeFunc func(req *pool.Message)) (client.Observation, error)
 	AcquireMessage(ctx context.Context) *pool.Message
 	ReleaseMessage(m *pool.Message)
+	WriteMessage(req *pool.Message) error
 	Close() error
 }
 
@@ -43,6 +46,7 @@ type reg struct {
 	tok    uint64
 	cancel context.CancelFunc
 	obs    client.Observation
+	req    *pool.Message // the request message of the registration: the application's own object
 	done   bool
 	failed bool
 	gone   bool
@@ -405,6 +409,7 @@ func runCase(t *testing.T, transport string, ops [][]string) []string {
 					r := &reg{id: id, tok: tok, cancel: cancel}
 					w.regs = append(w.regs, r)
 					req := w.cc.AcquireMessage(ctx)
+					r.req = req
 					req.SetCode(codes.GET)
 					req.SetToken(tokBytes(tok))
 					_ = req.SetPath("/obs")
@@ -480,6 +485,31 @@ func runCase(t *testing.T, transport string, ops [][]string) []string {
 						w.injectBlockwise(tok, codes.Code(code), f[3], f[5])
 					} else {
 						w.inject(tok, codes.Code(code), f[3], f[5])
+					}
+				case "reuse":
+					id, _ := strconv.Atoi(f[2])
+					nt, _ := strconv.ParseUint(f[3], 10, 64)
+					if id < len(w.regs) {
+						r := w.regs[id]
+						w.mu.Lock()
+						done := r.done
+						w.mu.Unlock()
+						if done && r.req != nil {
+							// DoObserve has returned: the request message belongs to the application again
+							t := tokBytes(nt)
+							if len(f) == 5 && f[4] == "short" {
+								t = shortTok(nt)
+							}
+							r.req.SetContext(context.Background())
+							if err := r.req.SetupGet("/other", t); err != nil {
+								panic(err)
+							}
+							r.req.SetType(message.NonConfirmable)
+							if w.udp != nil {
+								r.req.SetMessageID(w.udp.GetMessageID())
+							}
+							go func() { _ = w.cc.WriteMessage(r.req) }()
+						}
 					}
 				case "regabort":
 					id, _ := strconv.Atoi(f[2])
@@ -595,7 +625,7 @@ func TestC08(t *testing.T) {
 		case len(f) == 1 && f[0] == "end":
 			flush(w)
 			fmt.Fprintln(w, "end")
-		case transport != "" && (f[0] == "reg" && (len(f) == 2 || len(f) == 3) || (f[0] == "arrive" || f[0] == "arrivez" || f[0] == "arrivex" || f[0] == "arrivep") && len(f) == 6 || (f[0] == "regabort" || f[0] == "cancel") && len(f) == 3 || f[0] == "cancel" && len(f) == 4):
+		case transport != "" && (f[0] == "reg" && (len(f) == 2 || len(f) == 3) || (f[0] == "arrive" || f[0] == "arrivez" || f[0] == "arrivex" || f[0] == "arrivep") && len(f) == 6 || (f[0] == "regabort" || f[0] == "cancel") && len(f) == 3 || f[0] == "cancel" && len(f) == 4 || f[0] == "reuse" && (len(f) == 4 || len(f) == 5)):
 			ops = append(ops, f)
 		default:
 			flush(w)
